@@ -1,6 +1,9 @@
 package mint
 
 import (
+	"github.com/tellor-io/layer/x/mint/keeper"
+	"github.com/tellor-io/layer/x/mint/types"
+
 	"cosmossdk.io/math"
 )
 
@@ -10,10 +13,17 @@ func VerifC03_mint_amount() {
 	// block time never decreases (CometBFT BFT time); gaps up to 1 year
 	ndAssume(!now.Before(prev))
 	ndAssume(now.UnixNano()-prev.UnixNano() <= 31536000000000000)
+	// representation invariant M0 (established by genesis, preserved by Init and BeginBlocker - asserted below and in
+	// VerifC03_mint_init): before governance starts minting no previous block time is recorded, so the first
+	// provision after the start covers only the time since the start
+	ndAssume(initialized || !hasPrev)
 	err := BeginBlocker(ctx, k)
 	if !initialized || !hasPrev {
 		ndAssert(err == nil, "no-error-when-not-minting")
 		ndAssert(bank.minted.IsZero() && bank.nCalls == 0, "no-mint-before-governance-start-or-without-previous-time")
+		m, gerr := k.Minter.Get(ctx)
+		ndAssert(gerr == nil && (m.Initialized || m.PreviousBlockTime == nil), "invariant-M0-no-previous-time-before-start")
+		ndAssert(gerr == nil && m.Initialized == initialized, "begin-blocker-does-not-start-minting")
 		ndReach("not-minting")
 		return
 	}
@@ -63,4 +73,32 @@ func VerifC03_mint_cumulative() {
 	elapsedNs := math.NewInt(last.UnixNano()).Sub(math.NewInt(t0.UnixNano()))
 	ndAssert(bank.minted.MulRaw(86400000).MulRaw(1000000).LTE(elapsedNs.MulRaw(146940000)), "cumulative-mint-at-most-rate-times-elapsed")
 	ndReach("ran")
+}
+
+// VerifC03_mint_init: the Init message flips Initialized for the governance authority only, touches neither the
+// previous block time nor the bank, and is rejected for anybody else / when already initialised.
+func VerifC03_mint_init() {
+	ctx, k, bank, initialized, hasPrev, _, _ := vMintSetup("")
+	ndAssume(initialized || !hasPrev)
+	signer := ndString("signer")
+	asAuthority := ndBool("asAuthority")
+	if asAuthority {
+		signer = k.GetAuthority()
+	} else {
+		ndAssume(signer != k.GetAuthority())
+	}
+	_, err := keeper.NewMsgServerImpl(k).Init(ctx, &types.MsgInit{Authority: signer})
+	m, gerr := k.Minter.Get(ctx)
+	ndAssert(gerr == nil, "minter-readable")
+	ndAssert(bank.nCalls == 0 && bank.minted.IsZero(), "init-mints-nothing")
+	ndAssert(m.Initialized || m.PreviousBlockTime == nil, "invariant-M0-no-previous-time-before-start")
+	ndAssert((m.PreviousBlockTime != nil) == hasPrev, "init-does-not-touch-previous-time")
+	if err == nil {
+		ndReach("accepted")
+		ndAssert(asAuthority, "only-the-governance-authority-starts-minting")
+		ndAssert(!initialized && m.Initialized, "init-once")
+	} else {
+		ndReach("rejected")
+		ndAssert(m.Initialized == initialized, "rejected-init-changes-nothing")
+	}
 }
